@@ -52,7 +52,7 @@ type callJudgement struct {
 
 func judgeCall(rr *roundRec, ph *phaseRec, c *callRec) (callJudgement, *finding) {
 	S, C0 := ph.Spec.Shape, ph.C0
-	j := callJudgement{live: c.CancelSeq == 0 || c.CancelSeq > c.RetSeq, rC: ref(c.Tok, C0), rS: ref(c.Tok, S)}
+	j := callJudgement{live: (c.CancelSeq == 0 || c.CancelSeq > c.RetSeq) && (ph.EndAllSeq == 0 || c.RetSeq < ph.EndAllSeq), rC: ref(c.Tok, C0), rS: ref(c.Tok, S)}
 	for _, d := range ph.Downloads {
 		if d.StartSeq >= c.RetSeq {
 			continue
@@ -264,6 +264,25 @@ func judgePhase(run *stats, rr *roundRec, pi int, ph *phaseRec) []finding {
 		run.Count("parked_waiters_on_one_download", bucket(ph.MaxParked))
 		if ph.MaxParked >= 8 {
 			run.Observed("shared-download:>=8-waiters-1-download")
+		}
+	}
+	// a herd: callers that were all held inside VerifySignature and let go together (no barrier between the resumes)
+	herd, lastResume, firstRet := 0, int64(0), int64(math.MaxInt64)
+	for _, c := range ph.Calls {
+		if c.HeldAt != "" && !c.NeverReturned {
+			herd++
+			if c.ResumeSeq > lastResume {
+				lastResume = c.ResumeSeq
+			}
+			if c.RetSeq < firstRet {
+				firstRet = c.RetSeq
+			}
+		}
+	}
+	if herd >= 2 && lastResume < firstRet {
+		run.Count("herd_of_preempted_callers_released_together", bucket(herd))
+		if herd >= 4 && len(ds) > 0 {
+			run.Observed("single-flight:herd-of->=4-preempted-callers-released-together")
 		}
 	}
 	sawFault := false
@@ -515,7 +534,9 @@ var pcModel = func() porcupine.Model {
 	return nm.ToModel()
 }()
 
-const porcupineTimeout = 60 * time.Second
+// porcupineTimeout: expiry is inconclusive for the round (counted), never a verdict. Which histories are expensive depends
+// on the recorded interleaving; the quick tier gives up earlier to stay within its budget.
+var porcupineTimeout = 60 * time.Second
 
 // linearizable checks the whole round. maxConc is the largest number of callers in one phase.
 func linearizable(rr *roundRec) (porcupine.CheckResult, int) {
